@@ -454,11 +454,335 @@ def f(app, **kw):
     return K().run(app, **kw)
 ''', ['f(None)', 'f("A", x=5, y=2)'])
 
+# ---------------------------------------------------------------------------------------- second half (normalize2)
+case('walrus guard', '''
+def f(xs):
+    if (n := len(xs)) > 2:
+        return n
+    if not (ys := [x for x in xs if x]):
+        return 'empty'
+    return ys
+''', ['f([1,2,3])', 'f([0])', 'f([1])'])
+
+case('walrus not first: left alone', '''
+log = []
+def g(x):
+    log.append(x)
+    return x
+def f(a):
+    if g(a) and (m := g(a + 1)):
+        return m
+    return list(log)
+''', ['f(0)', 'f(1)'], expect_inlined=False)
+
+case('context manager: exception translation', '''
+from contextlib import contextmanager
+class Refused(Exception):
+    pass
+@contextmanager
+def _refuse():
+    try:
+        yield
+    except (ValueError, OSError):
+        raise Refused()
+def f(x):
+    with _refuse():
+        v = int(x)
+    return v
+''', ['f("3")', 'f("x")', 'f(None)'])
+
+case('context manager: finally, as-target, early return in body', '''
+import contextlib
+log = []
+@contextlib.contextmanager
+def _tracked(name, factor=2):
+    log.append('enter ' + name)
+    h = [factor]
+    try:
+        yield h
+    finally:
+        log.append('exit ' + name)
+def f(x):
+    with _tracked('a') as h:
+        if x < 0:
+            return ('neg', list(log))
+        h.append(x * h[0])
+    return (h, list(log))
+''', ['f(1)', 'f(-1)', 'f(2)'])
+
+case('context manager with code behind the yield and a returning body: left alone', '''
+from contextlib import contextmanager
+log = []
+@contextmanager
+def _cm():
+    yield
+    log.append('after')
+def f(x):
+    with _cm():
+        if x:
+            return list(log)
+    return list(log)
+''', ['f(0)', 'f(1)', 'f(1)'], expect_inlined=False)
+
+case('context manager method swallowing', '''
+from contextlib import contextmanager
+class K(object):
+    def __init__(self):
+        self.seen = []
+    @contextmanager
+    def _quiet(self, tag):
+        try:
+            yield
+        except KeyError as e:
+            self.seen.append((tag, 'key'))
+        else:
+            self.seen.append((tag, 'fine'))
+    def run(self, d, k):
+        with self._quiet(k):
+            d[k]
+        return list(self.seen)
+def f(k):
+    return K().run({'a': 1}, k)
+''', ['f("a")', 'f("b")'])
+
+case('chain loop', '''
+from itertools import chain
+def f(a, b, rs):
+    seen = []
+    for x in chain(a, reversed(b), chain.from_iterable(r['m'] for r in rs if r)):
+        if x in seen:
+            continue
+        seen.append(x)
+    return seen
+''', ['f([1,2],[2,3],[{"m":[3,4]},{},{"m":[9]}])', 'f([],[],[])'])
+
+case('chain loop with break: left alone', '''
+import itertools
+def f(a, b):
+    out = []
+    for x in itertools.chain(a, b):
+        if x == 0:
+            break
+        out.append(x)
+    return out
+''', ['f([1,0],[2])', 'f([1],[2])'], expect_inlined=False)
+
+case('chain loop whose body mutates a later iterable: left alone', '''
+from itertools import chain
+def f(a, b):
+    out = []
+    for x in chain(a, b):
+        out.append(x)
+        if x == 1:
+            b.append(7)
+    return out
+''', ['f([1],[2])'], expect_inlined=False)
+
+case('table of predicates: any / all', '''
+def _neg(x, y):
+    return x < 0
+def _big(x, y):
+    return x > y
+def _odd(x, y):
+    return x % 2
+_CHECKS = (_neg, _big, _odd)
+def f(x, y):
+    if any(c(x, y) for c in _CHECKS):
+        return 'skip'
+    v = all(c(x, y) for c in _CHECKS)
+    return ('go', v, any(c(x, y) for c in _CHECKS))
+''', ['f(-1, 0)', 'f(2, 5)', 'f(7, 5)', 'f(3, 9)'])
+
+case('table of converters: for with return', '''
+_NOT = object()
+def _a(o):
+    if isinstance(o, dict):
+        return sorted(o)
+    return _NOT
+def _b(o):
+    try:
+        return list(o)
+    except TypeError:
+        return _NOT
+_CONVS = (_a, _b)
+def f(o):
+    for conv in _CONVS:
+        r = conv(o)
+        if r is not _NOT:
+            return r
+    raise TypeError('no')
+''', ['f({"b":1,"a":2})', 'f((1,2))', 'f(5)'])
+
+case('table of (name, getter) rows', '''
+import operator
+def _ep(o):
+    return o['ep'].upper()
+_FIELDS = (('pattern', operator.attrgetter('pattern')), ('ep', _ep), ('repr', repr))
+class O(dict):
+    pattern = '/x'
+def f():
+    o = O(ep='e')
+    d = {}
+    for name, get in _FIELDS:
+        d[name] = get(o)
+    return sorted(d.items())
+''', ['f()'])
+
+case('rebound table: left alone', '''
+def _a(x):
+    return x + 1
+_T = (_a,)
+_T = _T + (_a,)
+def f(x):
+    for g in _T:
+        x = g(x)
+    return x
+''', ['f(1)'], expect_inlined=False)
+
+case('namedtuple container', '''
+from collections import namedtuple
+_Phase = namedtuple('_Phase', 'funcs provides')
+def _collect(mws, attr):
+    sigs = [(m[attr], m[attr + '_p']) for m in mws if m.get(attr)]
+    funcs, provides = list(zip(*sigs)) or ((), ())
+    return _Phase(funcs, provides)
+def f(mws):
+    ep = _collect(mws, 'e')
+    rn = _collect(mws, 'r')
+    return ep.funcs, ep.provides, rn[0], len(rn.provides), ep
+''', ['f([{"e":1,"e_p":2,"r":3,"r_p":4},{"e":5,"e_p":6}])', 'f([])'])
+
+case('record class as a function object', '''
+class _Builder(object):
+    SEP = '/'
+    def __init__(self, mode, names=None):
+        self.mode = mode
+        self.parts = []
+        self.names = dict(names or {})
+    def add(self, p, name=None):
+        if name is not None:
+            if name in self.names:
+                raise ValueError(name)
+            self.names[name] = len(self.parts)
+        self.parts.append(self._quote(p))
+    def _quote(self, p):
+        return p.upper() if self.mode == 'U' else p
+    def build(self):
+        return self.SEP.join(self.parts), self.names
+def f(mode, segs):
+    b = _Builder(mode)
+    for s in segs:
+        if s.startswith('<'):
+            b.add(s, name=s.strip('<>'))
+        else:
+            b.add(s)
+    return b.build()
+def g(mode):
+    return _Builder(mode, {'z': 9}).build()
+''', ['f("U", ["a", "<b>", "c"])', 'f("x", ["<a>", "<a>"])', 'g("U")', 'f("U", [])'])
+
+case('record class whose instance escapes: left alone', '''
+class _Conv(object):
+    def __init__(self, k):
+        self.k = k
+    def run(self, x):
+        return x * self.k
+def f(k):
+    c = _Conv(k)
+    return c
+def g(k):
+    return f(k).run(2)
+''', ['g(3)'], expect_inlined=False)
+
+case('method moved into a private mixin listed after a foreign base', '''
+class Base(object):
+    pass
+class _Mixin(object):
+    def _build(self, a, x=0):
+        return (self.tag, a, x)
+class K(Base, _Mixin):
+    tag = 'k'
+    def run(self, a):
+        return self._build(a, x=1)
+def f(a):
+    return K().run(a)
+''', ['f(1)'])
+
+case('copy propagation keeps order of re-binding', '''
+class O(object):
+    def __init__(self, v):
+        self.v = v
+def f(a, b):
+    x = a
+    r1 = x.v
+    a = b
+    r2 = x.v           # still the old a
+    y = 'v'
+    r3 = getattr(a, y)
+    for i in range(2):
+        r4 = getattr(x, y)
+        y = 'w' if i else 'v'
+    z = x
+    g = lambda: z.v    # late binding
+    z = b
+    try:
+        k = 'v'
+        q = getattr(a, k)
+    except AttributeError:
+        q = None
+    return r1, r2, r3, g(), q, [x.v for x in (a, b)], x.v
+def h():
+    o1, o2 = O(1), O(2)
+    o1.w = 10
+    return f(o1, o2)
+''', ['h()'], expect_inlined=False)
+
+case('lazy temporaries feeding a chain loop', '''
+import itertools
+def _append_unseen(seen, candidates):
+    for c in candidates:
+        if c not in seen:
+            seen.append(c)
+def f(routes, own):
+    seen = []
+    _append_unseen(seen, own)
+    per_route = (r['m'] for r in reversed(routes))
+    cands = itertools.chain.from_iterable(per_route)
+    _append_unseen(seen, cands)
+    return seen
+''', ['f([{"m":[1,2]},{"m":[2,3]}],[3,9])', 'f([],[])'])
+
+case('lazy temporary whose source is re-bound in between: left alone', '''
+from itertools import chain
+def f(a, b):
+    t = chain(a, b)
+    a = [7]
+    out = []
+    for x in t:
+        out.append(x)
+    return out
+''', ['f([1],[2])'], expect_inlined=False)
+
+case('explicit keywords landing in a pass-through **kw', '''
+def target(a, x=0, y=0, z=0):
+    return (a, x, y, z)
+class _Mixin(object):
+    def _build(self, a, **opts):
+        return target(a, x=self.k, **opts)
+class K(_Mixin):
+    k = 5
+    def run(self, a, m):
+        more = {'z': 3}
+        return self._build(a, y=m), self._build(a, y=m, **more), self._build(a)
+def f(a, m):
+    return K().run(a, m)
+''', ['f(1, 2)'])
+
 
 def run_case(name, src, calls, expect_inlined):
     tree = ast.parse(src)
     normalize._ANCHORS = set()      # nothing is an anchor in these toy modules
-    new, n = normalize.normalize_tree(ast.parse(src))
+    new, n = normalize.normalize_tree(ast.parse(src), lambda ident: False)
     out = ast.unparse(new)
     try:
         code_a = compile(tree, '<orig>', 'exec')
@@ -489,7 +813,7 @@ def run_case(name, src, calls, expect_inlined):
         f = [s for s in new.body if isinstance(s, ast.FunctionDef) and s.name == 'f']
         local_defs = set(d.name for s in f for d in ast.walk(s) if isinstance(d, ast.FunctionDef) and d is not s)
         left = [c.func.id for s in f for c in ast.walk(s) if isinstance(c, ast.Call) and isinstance(c.func, ast.Name)
-                and (c.func.id.startswith('_') or c.func.id in local_defs) and c.func.id not in ('_noisy2',)]
+                and (c.func.id.startswith('_') or c.func.id in local_defs) and c.func.id not in ('_noisy2', '_Phase')]
         if left:
             return 'helper calls left in f: %s\n%s' % (left, out)
     return None
@@ -519,7 +843,7 @@ def main():
                 with open(p) as fh:
                     src = fh.read()
                 try:
-                    t, n = normalize.normalize_tree(ast.parse(src))
+                    t, n = normalize.normalize_tree(ast.parse(src), lambda ident: False)
                     compile(ast.parse(ast.unparse(t)), p, 'exec')
                     n_mod += 1
                     n_inl += n
